@@ -21,7 +21,7 @@ Inductive axis : Type :=
 | AxFollowing | AxFollowingSibling | AxPreceding | AxPrecedingSibling | AxSelf | AxAttribute | AxNamespace.
 
 (* node tests; the optional prefix is a module name (RFC 7951 style); an unprefixed name belongs to the module
-   of the context node of the step, below the root to any module *)
+   of the parent of the selected node (a top-level node: to any module) *)
 Inductive ntest : Type :=
 | TName (pfx : option bytes) (name : bytes)
 | TStar (pfx : option bytes)
@@ -206,7 +206,7 @@ Definition node_test (fl : flags) (nt : ntest) (c m : item) : bool :=
           beq_bytes (ni_name (x_info y)) nm &&
           match pfx with
           | Some p => beq_bytes (ni_mod (x_info y)) p
-          | None => match item_mod c with Some cm => beq_bytes (ni_mod (x_info y)) cm | None => true end
+          | None => match x_pmod y with Some pm => beq_bytes (ni_mod (x_info y)) pm | None => true end
           end
       | _ => false
       end
